@@ -32,6 +32,18 @@ inductive Panic
   | rt              -- Go runtime error
   deriving DecidableEq, Repr, Inhabited
 
+/-- Go's `int` arithmetic on a 64-bit platform: the mathematical result wrapped into
+    [-2^63, 2^63).  The functions translated from the source (Generated/Fns.lean) apply it to
+    every `+`, `-`, `*` and negation; the tie theorems show that within the ranges the
+    library guarantees the wrap never happens -/
+def w64 (x : Int) : Int := (x + 9223372036854775808) % 18446744073709551616 - 9223372036854775808
+
+/-- the range of a Go `int` -/
+def IsInt64 (x : Int) : Prop := -9223372036854775808 ≤ x ∧ x < 9223372036854775808
+
+theorem w64_id {x : Int} (h : IsInt64 x) : w64 x = x := by
+  unfold w64; unfold IsInt64 at h; omega
+
 def Panic.toString : Panic → String
   | .emptyIndex => "emptyIndex" | .zeroIndex => "zeroIndex" | .outOfRange => "outOfRange"
   | .slot => "slot" | .stackFull => "stackFull" | .stackEmpty => "stackEmpty"
